@@ -71,7 +71,8 @@ PROPS = {
         real_vs_stub=REAL,
         assumptions=COMMON_ASSUME + ["crash points are exhaustive per generated program, programs themselves are sampled",
                                      "Conversion_Saves::saves.size() is deliberately not part of the compared shape (a converted temporary legitimately stays until the next call)"],
-        expected_probes=["probe_exception_left_eval", "probe_fault_absorbed_inside_script", "fault_script_throw", "fault_script_return", "on_worker_thread"],
+        expected_probes=["probe_exception_left_eval", "probe_fault_absorbed_inside_script", "fault_script_throw", "fault_script_return", "on_worker_thread",
+                         "probe_reentrant_eval_from_callback", "probe_reentrant_eval_failed_and_was_handled_or_passed_on", "probe_other_engine_built_or_destroyed_mid_evaluation"],
         **two(40, 420,
               {"plain": {"workers": 10}, "asan": {"workers": 6}},
               {"plain": {"workers": 10}, "asan": {"workers": 6}}),
